@@ -2,9 +2,10 @@
    The model (Charset.v) works on the bytes before the terminator and returns the bytes written
    before the terminator; the C functions return that length plus one in both the size-only and the
    converting call.  "Reads nothing past the terminator" is structural in the model (there is
-   nothing after the list) and is tied to the code by the ASan run on exactly-sized buffers.
-   Statements only; proofs in CharsetFacts.v. *)
-From Sbdf Require Import Charset CharsetFacts.
+   nothing after the list); for the code it is part of C19_source_* below: the deep-embedded
+   program faults on any read outside the NUL-terminated input, and the theorems say it returns.
+   Statements only; proofs in CharsetFacts.v and ImpFacts.v. *)
+From Sbdf Require Import Charset CharsetFacts Imp Gen.Prog ImpFacts.
 
 Theorem C19_roundtrip : forall s, Forall latin1 s -> utf8_to_iso (iso_to_utf8 s) = s.
 Proof. exact iso_utf8_iso_roundtrip. Qed.
@@ -21,7 +22,7 @@ Proof. exact utf8_to_iso_output. Qed.
 Print Assumptions C19_utf8_to_iso_output.
 
 (* the conversion consumes its whole input with the fuel it is given: more fuel changes nothing *)
-Theorem C19_total : forall s f1 f2, (length s <= f1)%nat -> (length s <= f2)%nat -> u2i_loop f1 s = u2i_loop f2 s.
+Theorem C19_total : forall (s : list Z) f1 f2, (List.length s <= f1)%nat -> (List.length s <= f2)%nat -> u2i_loop f1 s = u2i_loop f2 s.
 Proof. exact u2i_loop_fuel_enough. Qed.
 Print Assumptions C19_total.
 
@@ -31,3 +32,34 @@ Example C19_substitutes :
   utf8_to_iso [196; 128] = [26] /\ utf8_to_iso [226; 130; 172] = [26] /\ utf8_to_iso [128; 128; 65] = [26; 65] /\
   utf8_to_iso [65; 195; 169; 66] = [65; 233; 66].
 Proof. repeat split; reflexivity. Qed.
+
+(* ---- the source itself.  Gen/Prog.v is the two converters of src/sbdfstring.c translated,
+   statement by statement, into the mini-C of Imp.v by tools/c2imp.py on every run.  For EVERY
+   NUL-free input string s (followed by its terminator), with an output buffer (w = true) or with a
+   null output pointer (w = false, the size-only call): the function terminates, returns the
+   model's length plus one - the same value in both calls - has written exactly the model's bytes
+   and the terminator when given a buffer and nothing otherwise, and never read outside
+   s ++ [0], wrote out of sequence, overflowed an int or read an unset local (each of those is a
+   fault of the interpreter, and the outcome is a return).  The only size hypothesis is that the
+   result length fits an int. *)
+Theorem C19_source_iso_to_utf8 : forall w s, Forall latin1 s -> zlen (iso_to_utf8 s) + 1 <= int_max ->
+  exists f0, forall f, (f0 <= f)%nat ->
+    exists fin, call f prog_sbdf_convert_iso88591_to_utf8 [VPtr RIn 0; ov w 0] (s ++ [0]) = OReturn (VInt (zlen (iso_to_utf8 s) + 1)) fin /\
+                outb fin = app_w w [] (iso_to_utf8 s ++ [0]).
+Proof. exact i2u_correct. Qed.
+Print Assumptions C19_source_iso_to_utf8.
+
+Theorem C19_source_utf8_to_iso : forall w s, Forall latin1 s -> zlen (utf8_to_iso s) + 1 <= int_max ->
+  exists f0, forall f, (f0 <= f)%nat ->
+    exists fin, call f prog_sbdf_convert_utf8_to_iso88591 [VPtr RIn 0; ov w 0] (s ++ [0]) = OReturn (VInt (zlen (utf8_to_iso s) + 1)) fin /\
+                outb fin = app_w w [] (utf8_to_iso s ++ [0]).
+Proof. exact u2i_correct. Qed.
+Print Assumptions C19_source_utf8_to_iso.
+
+(* the interpreter on concrete inputs (what the theorems say, executed): "é" "A" a 4-byte sequence, "B", a truncated lead *)
+Example C19_source_runs :
+  (match call 1000 prog_sbdf_convert_utf8_to_iso88591 [VPtr RIn 0; VPtr ROut 0] [195; 169; 65; 240; 159; 146; 169; 66; 194; 0] with
+   | OReturn v st => Some (v, outb st) | _ => None end) = Some (VInt 6, [233; 65; 26; 66; 26; 0]) /\
+  (match call 1000 prog_sbdf_convert_iso88591_to_utf8 [VPtr RIn 0; VNull] [233; 65; 255; 0] with
+   | OReturn v st => Some (v, outb st) | _ => None end) = Some (VInt 6, []).
+Proof. split; vm_compute; reflexivity. Qed.
